@@ -199,8 +199,7 @@ def check(tier, seed):
         res.notes["model_schedules_forced_onto_impl"] = info
 
     return base.standard_check(PID, tier, seed, ts, MODELS[tier], RULE, nontrivial, extra=extra,
-                               assumptions=["single-character symbols", "transition tables as the library's "
-                                            "constructors build them (defaultdict or total dict)",
+                               assumptions=["single-character symbols (words are strings)",
                                             "bounded universes: <= 6 states, words <= 4"])
 
 
